@@ -2,11 +2,13 @@ SPECIFICATION Spec
 CONSTANTS
   ClassLevelPropagate = FALSE
   ParamResolve = FALSE
+  InitRestated = FALSE
   OriginFromSuper = FALSE
   AllowModifyBusy = FALSE
   Parent <- Chain3
   Mode = "clsq"
-  QSels = {{1},{2},{3}}
+  QSels = {{1}, {2}, {3}}
+  Vias = {"api"}
   InstKeys = {}
   WithModify = FALSE
   AllFlags = FALSE
